@@ -73,6 +73,7 @@ type wdata struct {
 }
 
 type sys struct {
+	nclear int // plain clearing calls so far: they alternate between SetContext(nil, false) and ClearContext()
 	c       *ctl.Ctl
 	w       *hist.W
 	variant bool
@@ -307,6 +308,17 @@ func (s *sys) setContext(c uint64, restart bool) bool {
 	var ctx context.Context
 	if c != 0 {
 		ctx = s.roots[c]
+	}
+	if c == 0 && !restart {
+		// every second plain clearing goes through the wrapper ClearContext()
+		s.nclear++
+		if s.nclear%2 == 0 {
+			s.w.Count("api.clearcontext_wrapper", 1)
+			if s.variant {
+				return s.sc.ClearContext()
+			}
+			return s.rc.ClearContext()
+		}
 	}
 	if s.variant {
 		return s.sc.SetContext(ctx, restart)
